@@ -12,6 +12,7 @@ CONSTRAINT Bound
 INVARIANT SelfConsistent
 INVARIANT WireWellTyped
 INVARIANT BindAtomic
+INVARIANT BlockOver
 INVARIANT ExactlyOnceInOrder
 INVARIANT SyncAfterEarlier
 INVARIANT FreeLaws
